@@ -127,3 +127,42 @@ def decode (cs : List Char) : Option JV :=
   | _ => none
 
 end Cpf.Rules.JsonDoc
+
+namespace Cpf.Rules.JsonDoc
+open Cpf.Rules.Json
+
+/-! ### indented form (json.MarshalIndent(v, "", "  ")) and a decoder that ignores insignificant white space -/
+
+def indent (d : Nat) : List Char := (List.replicate d [' ', ' ']).flatten
+
+mutual
+def encIndent (d : Nat) : JV → List Char
+  | .str s => '"' :: escape s ++ ['"']
+  | .num ds => ds
+  | .arr [] => ['[', ']']
+  | .arr (x :: r) => '[' :: '\n' :: encIndentElems (d + 1) (x :: r) ++ '\n' :: indent d ++ [']']
+  | .obj [] => ['{', '}']
+  | .obj (m :: r) => '{' :: '\n' :: encIndentMembers (d + 1) (m :: r) ++ '\n' :: indent d ++ ['}']
+def encIndentElems (d : Nat) : List JV → List Char
+  | [] => []
+  | [x] => indent d ++ encIndent d x
+  | x :: y :: r => indent d ++ encIndent d x ++ ',' :: '\n' :: encIndentElems d (y :: r)
+def encIndentMembers (d : Nat) : List (List Char × JV) → List Char
+  | [] => []
+  | [(k, v)] => indent d ++ '"' :: escape k ++ '"' :: ':' :: ' ' :: encIndent d v
+  | (k, v) :: m :: r => indent d ++ '"' :: escape k ++ '"' :: ':' :: ' ' :: encIndent d v ++ ',' :: '\n' :: encIndentMembers d (m :: r)
+end
+
+def isWs (c : Char) : Bool := c = ' ' || c = '\n' || c = '\t' || c = '\r'
+
+/-- remove white space outside string literals (`inStr` = inside a literal; `esc` = right after a backslash) -/
+def stripWs : Bool → Bool → List Char → List Char
+  | _, _, [] => []
+  | false, _, c :: r => if c = '"' then '"' :: stripWs true false r else if isWs c then stripWs false false r else c :: stripWs false false r
+  | true, true, c :: r => c :: stripWs true false r
+  | true, false, c :: r => if c = '"' then '"' :: stripWs false false r else if c = '\\' then '\\' :: stripWs true true r else c :: stripWs true false r
+
+/-- decoding a document that may carry insignificant white space -/
+def decodeWs (cs : List Char) : Option JV := decode (stripWs false false cs)
+
+end Cpf.Rules.JsonDoc
